@@ -204,6 +204,13 @@ mod dictionary {
                 self.bytes += 1;
                 output.push([*b].as_slice())
             } else {
+                // A literal that starts with an assigned tag would decode as the dictionary entry.
+                if let Some(tag) = bytes.first() {
+                    assert!(
+                        self.decode.get((*tag).into()).is_none(),
+                        "literal starts with byte {tag}, which is a dictionary tag"
+                    );
+                }
                 self.bytes += bytes.len();
                 output.push(bytes)
             };
